@@ -104,11 +104,13 @@ type Conn struct {
 	Name      string
 	OnWrite   func(c *Conn, p []byte) // called for every accepted write (before logging)
 	Extra     func(c *Conn) []byte    // called when In is exhausted: more input (e.g. a responder)
+	LastWith  Fault // FailDataEOF / FailDataErr / FailTimeout: the Read that hands out the last byte of In also reports this
+	FailStart int   // offset at which the failing Read started (-1: none yet)
 	NoReadLog bool                    // do not log successful Reads (bulk read-side use)
 }
 
 // NewConn returns a connection that will deliver in.
-func NewConn(in []byte) *Conn { return &Conn{In: in, AtEnd: FailEOF} }
+func NewConn(in []byte) *Conn { return &Conn{In: in, AtEnd: FailEOF, FailStart: -1} }
 
 func (c *Conn) decide(kind OpKind) (Fault, int) {
 	idx := len(c.Ops)
@@ -163,6 +165,9 @@ func (c *Conn) Read(p []byte) (int, error) {
 		}
 	}
 	if avail == 0 {
+		if c.FailStart < 0 {
+			c.FailStart = c.inPos
+		}
 		e := faultErr(c.AtEnd)
 		c.log(Op{Kind: OpRead, Index: idx, N: len(p), Fault: c.AtEnd, Err: e})
 		return 0, e
@@ -182,9 +187,15 @@ func (c *Conn) Read(p []byte) (int, error) {
 	}
 	copy(p, c.In[c.inPos:c.inPos+n])
 	data := c.In[c.inPos : c.inPos+n]
+	if c.inPos+n == len(c.In) && c.LastWith != OK && f == OK {
+		f = c.LastWith
+		c.FailStart = c.inPos
+	}
 	c.inPos += n
 	var err error
-	if f == FailDataEOF {
+	if f == FailTimeout {
+		err = ErrTimeout
+	} else if f == FailDataEOF {
 		err = io.EOF
 	} else if f == FailDataErr {
 		err = ErrInjected
